@@ -184,6 +184,8 @@ func init() {
 		return fmt.Sprintf("%s inter=%s %d", strings.Join(items, ";"), msgsStr(collected), pos())
 	}
 	register("C04", genC04)
+	register("C07", genPartialDiscard)
+	register("C18", genPartialDiscard)
 }
 
 // ---- frame stream construction ----
@@ -296,7 +298,7 @@ func genC04(tier string, r *rng) {
 			// raw Reader: NextFrame + ReadAll per message with a collecting OnIntermediate, various buffers
 			var script []string
 			for m := 0; m < nm+1; m++ {
-				switch r.intn(3) {
+				switch r.intn(4) {
 				case 0:
 					script = append(script, "nf", "ra", "st")
 				case 1:
@@ -306,6 +308,13 @@ func genC04(tier string, r *rng) {
 						script = append(script, fmt.Sprintf("r:%d", b))
 					}
 					script = append(script, "ra", "st")
+				case 2:
+					// partial read (possibly stopping inside a multi-byte character), then skip the rest
+					script = append(script, "nf")
+					for j := 0; j < 1+r.intn(3); j++ {
+						script = append(script, fmt.Sprintf("r:%d", []int{1, 2, 3, 5, 7}[r.intn(5)]))
+					}
+					script = append(script, "d", "st")
 				default:
 					script = append(script, "nf", "d", "st")
 				}
@@ -317,6 +326,7 @@ func genC04(tier string, r *rng) {
 			run(fmt.Sprintf("rdr %d %s %s %d %s %s", st, cfg, hx(enc), k, fin, strings.Join(script, " ")))
 		}
 	}
+	genPartialDiscard(tier, r)
 	// NextReader on single messages
 	for i := 0; i < 40; i++ {
 		server := r.bool()
@@ -326,5 +336,37 @@ func genC04(tier string, r *rng) {
 		}
 		enc := encodeStream(validMessage(r, 3, false, false), server, r)
 		run(fmt.Sprintf("rdr %d nr %s %d E nf ra st", st, hx(enc), r.intn(4)))
+	}
+}
+
+// genPartialDiscard: a reader that delivered or skipped a message must read the next one as a new reader
+// would (C04 "ready for the next one", C07 "messages following one another", C18 "reads the next message
+// exactly as a new reader").
+func genPartialDiscard(tier string, r *rng) {
+	// skipping the rest of a partially read text message must not disturb the next message (C04/C07/C18):
+	// every read size 1..6 over texts made of 2/3/4-byte characters, whole or fragmented inside a character
+	texts := [][]byte{[]byte("\xd0\x9f\xd1\x80\xd0\xb8\xd0\xb2\xd0\xb5\xd1\x82"), []byte("\xe2\x82\xac\xe2\x82\xac\xe2\x82\xac"), []byte("a\xf0\x9f\x98\x80\xf0\x9f\x98\x80"), []byte("caf\xc3\xa9 ok")}
+	nexts := [][]byte{[]byte("next"), []byte("\x82\xac"), []byte("\xa9"), []byte("\xd0\xb8"), []byte("\x9f\x98\x80z")}
+	for ti, t := range texts {
+		for _, server := range []bool{true, false} {
+			st := 2
+			if server {
+				st = 1
+			}
+			for b := 1; b <= 6; b++ {
+				for split := 0; split <= len(t); split += 1 + (ti+b)%3 {
+					nx := nexts[(ti+b+split)%len(nexts)]
+					fs := []gframe{{fin: false, op: ws.OpText, payload: t[:split]}, {fin: true, op: ws.OpContinuation, payload: t[split:]},
+						{fin: true, op: ws.OpText, payload: nx}, {fin: true, op: ws.OpBinary, payload: []byte{0xff, 0x80}}, {fin: true, op: ws.OpText, payload: []byte("z\xc3\xa9")}}
+					if split == 0 {
+						fs = append([]gframe{{fin: true, op: ws.OpText, payload: t}}, fs[2:]...)
+					}
+					enc := encodeStream(fs, server, r)
+					k := []int{0, 1, 4}[(b+split)%3]
+					run(fmt.Sprintf("rdr %d utf8,inter %s %d E nf r:%d d st nf ra st nf ra st nf ra st", st, hx(enc), k, b))
+					run(fmt.Sprintf("rdr %d utf8,inter %s %d Ed nf r:%d r:%d d st nf r:3 d st nf ra st nf ra st", st, hx(enc), k, b, 1+b%3))
+				}
+			}
+		}
 	}
 }
